@@ -25,7 +25,7 @@ def parse (cfg : Cfg) (fs : Fields) (sz : Nat) (data : Bytes) (pos : Nat) : Exce
   let buf := sread data pos sz
   match readMembers cfg fs [] buf with
   | .error e => .error e
-  | .ok vs => .ok ({ buf := buf, vals := vs }, pos + buf.length)
+  | .ok vs => .ok ({ buf := buf, vals := vs }, pos + sz)   -- the union ends at start + size, also after a short read
 
 /-- `Union.__setattr__(member k, v)` followed by `_rebuild`: write the member into the buffer at its offset (always 0: union
     members never get an offset), then `_update()`: re-read every member from the new buffer -/
